@@ -126,13 +126,18 @@ def composed_expr(o):
     from . import c09
     spec = o['spec']
     idx = {cn.ga.name(i): i for i in range(len(spec['nodes']))}
-    spec2 = dict(spec, exclude_names=[idx[n] for n in o.get('exclude', [])])
+    plain = cn._plain(spec)          # a partial flatten is a pseudo input there (right shapes downstream) ...
+    spec2 = dict(spec, nodes=plain['nodes'], exclude_names=[idx[n] for n in o.get('exclude', [])])
     by_node = {idx[L['name']]: L for L in o['layers']}
     n = len(spec['nodes'])
     ex = ['(mkExtra %s %s %s %s)' % (KIND[L['kind']], coq([Nat(k) for k in L['ks']]), coq(bool(L['bias'])), coq([[Nat(d) for d in st[2:]] for st in L['sites']])) if L else '(mkExtra KLinear [] false [])'
           for L in (by_node.get(i) for i in range(n))]
     ms = [coq_mask(by_node[i]) if i in by_node and by_node[i]['search'] else 'dmask' for i in range(n)]
-    return 'run_net (%s)%%nat (fun i => nth i [%s] (mkExtra KLinear [] false [])) [%s] %s' % (c09.coq_net(spec2), '; '.join(ex), '; '.join(ms), coq(bool(o['full_cost'])))
+    ir = c09.to_ir(spec2)
+    for i, nd in enumerate(plain['nodes']):
+        if 'flatten12_of' in nd:     # ... and a Flatten node of the C09 IR: every input feature expands into H entries
+            ir[i] = 'NFlat %d %d FFlatten' % (nd['flatten12_of'], nd['mult'])
+    return 'run_net (%s)%%nat (fun i => nth i [%s] (mkExtra KLinear [] false [])) [%s] %s' % ('[' + '; '.join(ir) + ']', '; '.join(ex), '; '.join(ms), coq(bool(o['full_cost'])))
 
 
 def coq_case_expr(o):
@@ -160,6 +165,14 @@ def oracle(o):
         elif 'export' in tr:
             where = 'export'
         out.append(('cost-or-export-raises:%s:%s' % (exc, where), msg))
+        # what was observed before the exception is still judged (the costs before pruning)
+        if 'open' in o and 'orig_plain' in o:
+            for n in o['names']:
+                orig = o['orig_plain'][n]
+                if o['open']['disc'][n] != orig:
+                    out.append(('open-discrete-cost-differs-from-original:' + n, 'before pruning: discrete %s = %r, original network %r' % (n, o['open']['disc'][n], orig)))
+                if not close(o['open']['cont'][n], Fraction(orig), REL_CONT):
+                    out.append(('open-continuous-cost-differs-from-original:' + n, 'before pruning: continuous %s = %r, original network %r' % (n, o['open']['cont'][n], orig)))
         return out
     names = o['names']
     deg = degenerate_layers(o)
